@@ -263,6 +263,9 @@ pub struct Machine<'p> {
     pub flags_def: bool,
     pub flags_origin: &'static str,
     pub max_written: u64,
+    /// heap and free registers at the marker of a print statement: they must be the same at the next
+    /// statement boundary (a print allocates nothing; the registers are caller-saved)
+    pub print_guard: Option<((u64, bool), (u64, bool))>,
     pub prints: Vec<PrintEv>,
     pub stats: EmuStats,
     pub entry_sp: u64,
@@ -457,6 +460,7 @@ pub fn run(prog: &Program, args: &[i64], cfg: &EmuConfig) -> EmuResult {
         flags_def: true,
         flags_origin: "",
         max_written: 0,
+        print_guard: None,
         prints: Vec::new(),
         stats: EmuStats::default(),
         entry_sp: 0,
@@ -526,6 +530,20 @@ pub fn run(prog: &Program, args: &[i64], cfg: &EmuConfig) -> EmuResult {
                     m.stats.markers += 1;
                     *m.stats.marker_kinds.entry(mk.kind.clone()).or_insert(0) += 1;
                     m.stats.max_env = m.stats.max_env.max(mk.env.len());
+                    {
+                        let now = ((m.regs[RBX as usize], m.rdef[RBX as usize]), (m.regs[RBP as usize], m.rdef[RBP as usize]));
+                        if let Some(before) = m.print_guard.take() {
+                            if before != now && before.0.1 && before.1.1 {
+                                return Machine::viol(
+                                    ViolationKind::Abi,
+                                    format!("heap/free registers changed across a print statement: ({:#x}, {:#x}) before, ({:#x}, {:#x}) after (they must survive the external call)", before.0.0, before.1.0, now.0.0, now.1.0),
+                                );
+                            }
+                        }
+                        if mk.kind == "print" {
+                            m.print_guard = Some(now);
+                        }
+                    }
                     if cfg.heap_check_every > 0 && m.stats.markers % cfg.heap_check_every == 0 {
                         let roots = m.roots_for(mk.env.len());
                         let view = HeapView {
